@@ -7,6 +7,11 @@ call; several torn lengths for each kernel write).  After each crash the
 database is reopened (recovery), with a NESTED crash at every crash point of the
 recovery, then reopened again, inspected against an in-memory map, and used for
 a few more operations.
+
+How the database is opened is a per-run knob: the class constructor or the
+module-level dbm-style ``dirdbm.open(file, flag, mode)`` - a writable flag for the
+handle the history is written through, any contents-preserving flag (incl. "r")
+for the reopens after the crash.  Nothing is written through a handle opened "r".
 """
 import os
 
@@ -21,15 +26,19 @@ LEVEL = "fault_enumeration"
 TECHNIQUE = "deterministic simulation: crash at every interposed filesystem call (+ torn writes, nested crash during recovery) of seeded DirDBM histories vs in-memory map"
 QUICK_RUNS = 2400
 BATCH = 10
-COMPONENTS = {"real": ["twisted.persisted.dirdbm.DirDBM/Shelf (__init__ recovery, __setitem__, __delitem__, __getitem__, keys)", "twisted.python.filepath.FilePath",
+COMPONENTS = {"real": ["twisted.persisted.dirdbm.DirDBM/Shelf (__init__ recovery, __setitem__, __delitem__, __getitem__, keys)", "twisted.persisted.dirdbm.open (flag/mode variants)", "twisted.python.filepath.FilePath",
                        "the real filesystem under a scratch directory (reads)"],
               "stub": ["process/kernel boundary for mutating calls (detsim.fs interposer: crash points, torn writes, user-space buffer loss)"]}
 RULE = ("run = one tape-drawn history of 1..7 set/replace/delete operations over <=4 keys with unique values (0 B..20 KiB) for which every crash point and torn-write "
         "length {0,1,len/2,len-1} is enumerated, each followed by reopen with a nested crash at every recovery crash point, a final reopen, comparison with the model map "
-        "and 1-2 further operations; non-trivial = history contains a replace or delete and at least one nested recovery crash was exercised")
+        "and 1-2 further operations; per run the handles are opened through the constructor or through dirdbm.open(file, flag in {-,c,w} for the writer / {-,r,w,c} "
+        "for every reopen, mode in {-,666,600}) (after a read-only reopen the further operations go through one more, writable, reopen); non-trivial = history contains a replace or delete and at least one nested recovery crash was exercised")
 ASSUMPTIONS = ["process crash (not power loss): data handed to write() and completed renames/removes survive; rename() is atomic",
                "a crash loses everything still in the process's user-space file buffer",
-               "one process uses the directory at a time (DirDBM's documented restriction)"]
+               "one process uses the directory at a time (DirDBM's documented restriction)",
+               "dirdbm.open(file, flag, mode): flags None/'r'/'w'/'c' open an existing database keeping its contents (dbm convention; documented as ignored), so a reopen "
+               "with any of them is a reopen in the sense of the statement - also 'r': what a read-only handle shows is data.  'n' (always a new database) is not used. "
+               "A read-only handle is only read; leftover temporary files ON DISK are not judged after a read-only reopen (only what keys()/values/len() show)"]
 LEVEL_TEXT = ("Exhaustive enumeration of crash points (incl. torn writes and nested crashes during recovery) for each sampled operation history; histories are sampled by seed.")
 
 KEYS = [b"a", b"b", b"key/with/slash\nand newline", b"K" * 70]
@@ -37,6 +46,14 @@ KEYS = [b"a", b"b", b"key/with/slash\nand newline", b"K" * 70]
 
 def run(sim):
     shelf = sim.draw_bool(0.25, "shelf")
+    # how the database is opened: the class constructor or the module-level dbm-style open(file, flag, mode).  The
+    # handle the history is written through is opened with a writable flag; the reopen after the crash uses any flag
+    # that, by dbm convention, opens an EXISTING database keeping its contents ("n" = "always a new, empty database"
+    # is left out: the statement is about reopening, not about re-creating).
+    writer = reopener = ("ctor", None, None)
+    if not shelf:
+        writer = _draw_opener(sim, [("ctor", 5), (None, 1), ("c", 1), ("w", 1)], "writer")
+        reopener = _draw_opener(sim, [("ctor", 5), (None, 1), ("r", 2), ("w", 1), ("c", 1)], "reopener")
     nkeys = sim.draw_int(1, 4, "nkeys")
     nops = sim.draw_int(1, 7, "nops")
     nchunks = sim.draw_choice([1, 2, 3, 6], "nchunks")
@@ -66,15 +83,50 @@ def run(sim):
         counter += 1
         k = KEYS[sim.draw_int(0, nkeys - 1, "key")]
         extra.append(("set", k, (counter, b"x%d" % counter) if shelf else b"x%d" % counter))
-    sim.config = {"shelf": shelf, "nkeys": nkeys, "ops": [(o, KEYS.index(k), None if v is None else (len(v[1]) if shelf else len(v))) for o, k, v in ops], "bufsize": bufsize}
-    sim.event("history", " ".join("%s%d" % (o, KEYS.index(k)) for o, k, v in ops), "shelf" if shelf else "dirdbm", "buf", bufsize)
+    sim.config = {"shelf": shelf, "writer": _opener_name(writer), "reopener": _opener_name(reopener), "nkeys": nkeys, "ops": [(o, KEYS.index(k), None if v is None else (len(v[1]) if shelf else len(v))) for o, k, v in ops], "bufsize": bufsize}
+    sim.event("history", " ".join("%s%d" % (o, KEYS.index(k)) for o, k, v in ops), "shelf" if shelf else "dirdbm", "buf", bufsize, "writer", _opener_name(writer), "reopener", _opener_name(reopener))
     F = simfs.FS(sim, bufsize=bufsize)
     bindings = [(filepath, "os", "os"), (filepath, "open", "open"), (dirdbm, "os", "os"), (dirdbm, "_open", "open")]
     try:
         with simfs.Installed(F, bindings):
-            _enumerate(sim, F, shelf, ops, extra)
+            _enumerate(sim, F, shelf, ops, extra, writer, reopener)
     finally:
         F.destroy()
+
+
+MODES = [None, 0o666, 0o600]
+
+
+def _draw_opener(sim, flags, label):
+    flag = sim.draw_weighted(flags, label)
+    if flag == "ctor":
+        return ("ctor", None, None)
+    return ("open", flag, sim.draw_choice(MODES, label + "_mode"))
+
+
+def _opener_name(opener):
+    how, flag, mode = opener
+    if how == "ctor":
+        return "ctor"
+    return "open(%s,%s)" % (flag or "-", "-" if mode is None else "%o" % mode)
+
+
+def _make_opener(sim, shelf, opener, role):
+    """-> (callable(path) -> database, read_only)"""
+    how, flag, mode = opener
+    if how == "ctor":
+        return (dirdbm.Shelf if shelf else dirdbm.DirDBM), False
+
+    def via_open(path):
+        sim.probe(role + "_via_open")
+        if flag == "r":
+            sim.probe(role + "_read_only")
+        if flag is None and mode is None:
+            return dirdbm.open(path)
+        if mode is None:
+            return dirdbm.open(path, flag)
+        return dirdbm.open(path, flag, mode)
+    return via_open, flag == "r"
 
 
 def _apply_model(m, op):
@@ -85,8 +137,9 @@ def _apply_model(m, op):
         m.pop(k, None)
 
 
-def _enumerate(sim, F, shelf, ops, extra):
-    cls = dirdbm.Shelf if shelf else dirdbm.DirDBM
+def _enumerate(sim, F, shelf, ops, extra, writer, reopener):
+    cls, _ = _make_opener(sim, shelf, writer, "writer")           # handles the history is written through
+    reopen, read_only = _make_opener(sim, shelf, reopener, "reopen")  # every reopen after a crash
     d = os.path.join(F.root, "db")
 
     def wipe():
@@ -188,7 +241,7 @@ def _enumerate(sim, F, shelf, ops, extra):
             # recovery, crash-free first (counts the recovery's crash points)
             F.arm()
             with sim.guard("recovery-raised", wit):
-                db2 = cls(d)
+                db2 = reopen(d)
             rpoints = F.n
             rplan = list(F.log)
             ctx = "crash at %d/%d (%s %s torn=%d) in op %d" % (n - base, npoints, opname, rel, torn, j)
@@ -198,7 +251,7 @@ def _enumerate(sim, F, shelf, ops, extra):
                 restore(snap)
                 F.arm(crash_at=r)
                 try:
-                    cls(d)
+                    reopen(d)
                     sim.fail("crash-fired", "", "nested crash point %d did not fire" % r)
                 except simfs.SimCrash:
                     pass
@@ -207,10 +260,15 @@ def _enumerate(sim, F, shelf, ops, extra):
                 F.reboot()
                 F.arm()
                 with sim.guard("recovery-raised", wit + "+nested"):
-                    db3 = cls(d)
+                    db3 = reopen(d)
                 inspect(db3, allowed, wit + "+nested", ctx + ", nested crash at recovery point %d (%s), after 2nd recovery:" % (r, rplan[r - 1][1]))
                 db2 = db3
             # life goes on: further operations on the recovered database behave like a map
+            if read_only:
+                # nothing is written through a handle that was opened for reading only
+                with sim.guard("recovery-raised", wit):
+                    db2 = cls(d)
+                inspect(db2, allowed, wit, ctx + ", writable reopen after the read-only one:")
             cur = {}
             for k in universe:
                 v = db2[k] if k in db2.keys() else None
@@ -222,10 +280,11 @@ def _enumerate(sim, F, shelf, ops, extra):
                 _apply_model(cur, op)
             F.reboot()
             with sim.guard("recovery-raised", wit):
-                db4 = cls(d)
+                db4 = reopen(d)
             inspect(db4, {k: {cur.get(k)} for k in universe}, wit, ctx + ", after further ops and reopen:")
             leftovers = [x for x in sorted(os.listdir(d)) if x.endswith(".new") or x.endswith(".rpl")]
-            sim.check("no-temp-after-recovery", not leftovers, wit, "%s temporaries left after recovery: %r" % (ctx, leftovers))
+            # (a reopen for reading only promises what is visible as data, not what is on disk)
+            sim.check("no-temp-after-recovery", read_only or not leftovers, wit, "%s temporaries left after recovery: %r" % (ctx, leftovers))
             sim.step(1000000)
     kinds = set((o, k in [kk for oo, kk, vv in ops[:i]]) for i, (o, k, v) in enumerate(ops))
     sim.nontrivial = nested_done > 0 and any(o == "del" or seen for o, seen in kinds)
@@ -238,3 +297,11 @@ def _d(x):
     if isinstance(x, tuple):
         return "(%r, <%d bytes>)" % (x[0], len(x[1]))
     return "<%d bytes %r>" % (len(x), bytes(x[:8]))
+
+
+MUTANTS = [
+    "seeded C51-r4b: dirdbm.open(file, 'r') skips the recovery in DirDBM.__init__ -> caught quick (get-raised:set@write, get-raised:set@rename) via the reopener knob",
+    "dirdbm.open() builds the DirDBM without running __init__'s recovery (any flag) -> caught quick (get-raised:set@write / set@rename)",
+    "dirdbm.open(file, 'w') returns a Shelf when a .new file is left behind (wrong class for a flag) -> caught quick (value-of-last-completed-op:set@write)",
+    "earlier rounds (see DESIGN 12): .new value kept when empty; empty .rpl dropped; .rpl kept after delete; only-entry .rpl skips recovery -> all caught quick",
+]
